@@ -118,6 +118,10 @@ func execC04Bubble(r *kernel.Run, s C04Spec) {
 			r.Violate("C04:cannot-build-proof", map[string]any{"nonrev": s.Nonrev}, "mask %b: %v", mask, err)
 			continue
 		}
+		// the timestamp request of a signature session is made BEFORE the commitment (the timestamp goes
+		// into the nonce); it is asked for again after the proof was built: both orders are a holder's
+		preA, preVals := b.TimestampRequestContributions()
+		preWire := mustJSON(map[string]any{"A": preA, "disclosed": preVals})
 		pl, err := gabi.ProofBuilderList{b}.BuildProofList(ctx, nonce, s.IsSig)
 		if err != nil {
 			r.Violate("C04:cannot-build-proof", map[string]any{"nonrev": s.Nonrev}, "mask %b: %v", mask, err)
@@ -127,6 +131,9 @@ func execC04Bubble(r *kernel.Run, s C04Spec) {
 		tsA, tsVals := b.TimestampRequestContributions()
 		tsWire := mustJSON(map[string]any{"A": tsA, "disclosed": tsVals})
 		det := map[string]any{"nonrev": s.Nonrev, "sig": s.IsSig}
+		if !bytes.Equal(preWire, tsWire) {
+			r.Violate("C04:timestamp-contribution-wrong", det, "mask %b: the contribution asked for before the commitment differs from the one asked for afterwards", mask)
+		}
 
 		// verifier
 		v := verifyWire(wire, Session{Context: ctx, Nonce: nonce, IsSig: s.IsSig, Keys: []*gabikeys.PublicKey{pk}})
@@ -178,6 +185,7 @@ func execC04Bubble(r *kernel.Run, s C04Spec) {
 		var emitted [][]byte
 		emitted = append(emitted, leafBytes(kernel.MustDecode(wire))...)
 		emitted = append(emitted, leafBytes(kernel.MustDecode(tsWire))...)
+		emitted = append(emitted, leafBytes(kernel.MustDecode(preWire))...)
 		for i := 0; i < n; i++ {
 			if want[i] || hc.Led.Ms[i].BitLen() < 64 {
 				continue
@@ -199,7 +207,7 @@ func execC04Bubble(r *kernel.Run, s C04Spec) {
 					}
 				}
 				dec := []byte(new(big.Int).SetBytes(nd).String())
-				if bytes.Contains(wire, dec) || bytes.Contains(tsWire, dec) {
+				if bytes.Contains(wire, dec) || bytes.Contains(tsWire, dec) || bytes.Contains(preWire, dec) {
 					r.Violate("C04:hidden-value-on-the-wire", det, "mask %b: decimal form of hidden attribute %d appears on the wire", mask, i)
 				}
 			}
